@@ -11,7 +11,9 @@ def run(tier, replay=None):
               "explicit segment lists per AdaptationSet (SegmentTimeline entries, or SegmentTemplate@duration expanded by the DASH rules over "
               "the time-shift window), every listed segment fetched through the URL derived from its MPD; scenario = (asset / MPD incl. "
               "thumbnail and subtitle AdaptationSets and variable-duration layouts, MPD type Number/segtimeline/segtimelinenr, P from 1..60, "
-              "120..3600 accepted for the asset + P that must be refused, continuous_1 on/off, tsbd, snr, availabilityStartTime 0 / 1000 / 3600 / 2023); instants: near "
+              "120..3600 accepted for the asset + P that must be refused, continuous_1 on/off, tsbd, snr, availabilityStartTime 0 / 1000 / 3600 / 2023); the three MPD types of one (asset, P) are requested one after the other on one long-running "
+              "server in an order rotating over all six permutations, and every scenario is visited a second time in reverse order (history); "
+              "P includes values that do not divide 3600 (period grid off the hour grid) with period numbers up to P+1 and beyond; instants: near "
               "availabilityStartTime, period boundary / window edge / loop wrap and their coincidences (multiples of lcm(PD, loop)) -1/0/+1 ms, "
               "early and in 2023-2025, first segment after a wrap, seeded; distinct = distinct (asset, MPD, type, P, continuity, instant class)")
     c.assumptions = [
@@ -23,6 +25,8 @@ def run(tier, replay=None):
         "when not requested no AdaptationSet may signal it",
         "C06.pt (Number mode publishTime = start of the last period) follows the property's anchor 'publishTime in multi-period Number mode' and DESIGN.md",
         "a segment URL is compared only where the single-period URL is answered 200",
+        "C06.history: the property quantifies over histories; besides judging every answer by all clauses, the acceptance (200 / refused) of the same "
+        "URL at the same instant must be the same in both passes over one server",
         "availabilityStartTime != 0 (start_): the text does not say whether the period grid is anchored at availabilityStartTime or at the epoch; C06.tile accepts "
         "both; 'tile wall-clock time' is read as: the generated periods do not all lie in the future of the request instant (C06.cover: first Period@start <= now - AST)",
     ]
@@ -69,6 +73,19 @@ def run(tier, replay=None):
               for a in e.get("as", []) for x in a.get("one", []) if x[0] >= 0)
     tmpl = sum(1 for e in events if e["ev"] == "mpd" and e.get("acc") and e.get("parse") for a in e.get("as", []) if a.get("tmpl"))
     # (a refusal that never happens is a C06.reject violation, not vacuity: only judged when nothing failed)
+    hp = {}
+    h = None
+    nondiv = repeated = 0
+    for e in events:
+        if e["ev"] == "hdr":
+            h = e
+        elif e.get("acc") and e.get("parse"):
+            nondiv += 3600 % h["P"] != 0 and len(e.get("pers", [])) > 1
+            repeated += bool(h.get("repeat"))
+    c.extra["accepted_mpds_P_not_dividing_3600_several_periods"] = nondiv
+    c.extra["accepted_mpds_second_pass"] = repeated
+    if not c.failures and (nondiv == 0 or repeated == 0):
+        raise vlib.MachineryError(f"C06 vacuity: nondiv={nondiv} repeated={repeated}")
     if not c.failures and (multi == 0 or refused == 0 or req == 0 or tmpl == 0):
         raise vlib.MachineryError(f"C06 vacuity: multi={multi} refused={refused} required_segments={req} template_sets={tmpl}")
     c.traces += st["scenarios"]
